@@ -57,7 +57,7 @@ def texts(tier):
     fields = FIELDS if tier == 'quick' else FIELDS + ['2', '9', '10', '30']
     for nf in (1, 2, 3):
         for fs in itertools.product(fields, repeat=nf):
-            if tier == 'quick' and nf == 3 and (fs[0] not in ('0', '1', '7', '12') or fs[1] not in ('00', '7', '45', '59', '60', '99')):
+            if tier == 'quick' and nf == 3 and (fs[0] not in ('0', '00', '1', '7', '12') or fs[1] not in ('0', '00', '7', '45', '59', '60', '99')):
                 continue
             for d in DECS:
                 for sep in (':', ';') if nf > 1 else (':',):
@@ -235,6 +235,74 @@ def history_work(chunk):
         acc.samples.append(dict(first=[firsts[0], '10.5'], then=['MAR', '10.5'], outcome=list(alone[('MAR', '10.5')])))
     return acc.pack()
 
+def fmt_thousandths(n):
+    """a duration of n thousandths of a second written the customary way: s.ddd, m:ss.ddd or h:mm:ss.ddd"""
+    s, ms = divmod(n, 1000)
+    if s < 60:
+        return '%d.%03d' % (s, ms)
+    m, s = divmod(s, 60)
+    if m < 60:
+        return '%d:%02d.%03d' % (m, s, ms)
+    h, m = divmod(m, 60)
+    return '%d:%02d:%02d.%03d' % (h, m, s, ms)
+
+
+def boundary_work(chunk):
+    """acceptance boundaries located by bisection on the real function, then every text on the 0.001 grid in a window around each boundary
+    (with 3, 2 and 1 decimals) x precision goes through check_one: the limit clauses and idempotence at the edges of the sanity limits"""
+    tier, codes = chunk
+    G = setup(tier)
+    U = G['U']
+    acc = Acc()
+    W = 40 if tier == 'quick' else 120          # half-width of the window in thousandths
+    nb = 0
+
+    def acc_ok(code, text, gender):
+        try:
+            U.check_performance_for_discipline(code, text, gender=gender, errorKlass=CustomError)
+            return True
+        except Exception:
+            return False
+    for code in codes:
+        kind = classify(G, code)
+        if kind not in ('timed', 'field'):
+            continue
+        for gender in GENDERS:
+            if kind == 'field':
+                fmt = lambda n: '%d.%03d' % divmod(n, 1000)
+                ladder = [int(1000 * 1.25 ** k) for k in range(0, 32)]           # 1 m .. ~1000 m
+            else:
+                fmt = fmt_thousandths
+                ladder = [int(1000 * 1.35 ** k) for k in range(0, 44)]           # 1 s .. ~110 h
+            oks = [acc_ok(code, fmt(n), gender) for n in ladder]
+            edges = []
+            for i in range(len(ladder) - 1):
+                if oks[i] != oks[i + 1]:
+                    lo, hi = ladder[i], ladder[i + 1]
+                    while hi - lo > 1:
+                        mid = (lo + hi) // 2
+                        if acc_ok(code, fmt(mid), gender) == oks[i]:
+                            lo = mid
+                        else:
+                            hi = mid
+                    edges.append(hi)
+            for e in edges:
+                nb += 1
+                for n in range(max(1, e - W), e + W + 1):
+                    t3 = fmt(n)
+                    forms = [t3]
+                    if n % 10 == 0:
+                        forms.append(t3[:-1])
+                    if n % 100 == 0:
+                        forms.append(t3[:-2])
+                    for text in forms:
+                        for prec in (PRECS if gender == GENDERS[0] else PRECS[:1]):
+                            check_one(G, acc, code, text, gender, prec, CustomError)
+    acc.add('boundaries', nb)
+    if not acc.samples and codes:
+        acc.samples.append(dict(event=codes[0], boundaries=nb))
+    return acc.pack()
+
 
 def run(tier):
     common.bind_repo()
@@ -245,6 +313,10 @@ def run(tier):
     merge(rep, pmap(work, [(tier, codes[i::64]) for i in range(64)]), part='%d event codes x %d texts x gender/precision/error-class combinations' % (len(codes), len(T)))
     merge(rep, pmap(history_work, [([c],) for c in HIST_CODES]), part='call-order histories: %d codes (case / suffix spellings) x 3 texts, then %d probes, vs the probe alone from a restored state' % (
         len(HIST_CODES), len(HIST_CODES) * len(HIST_TEXTS)))
+    tb = merge(rep, pmap(boundary_work, [(tier, codes[i::64]) for i in range(64)]),
+               part='acceptance boundaries (bisection on a geometric ladder of marks), every 0.001 step in a window around each, x decimals x precision')
+    if tb['extra'].get('boundaries', 0) < 100:
+        raise HarnessError('vacuous boundary pass: %r' % (tb['extra'],))
     c = rep.coverage
     c['event_codes'] = len(codes)
     c['texts'] = len(T)
